@@ -2,7 +2,7 @@
 
 State explored = the hidden process state a seeded call could depend on: the global key
 counter of the unseeded path, the handler stack, the staging caches.
-For each of 10 program shapes (flat, sample_shape site, nested scan, cond, vmapped call,
+For each of 11 program shapes (flat, sample_shape site, nested scan, cond, vmapped call,
 keyword arguments, gen-fn simulate with combinators, gen-fn called directly, ADEV estimate):
  * baseline r0 = seed(f)(key, *args) and its list of site keys (monitor mode);
  * ALL interference histories up to length 2 (quick) / 3 (thorough) over the alphabet
@@ -71,6 +71,13 @@ def _programs():
     def kwargs_fn(a, *, scale):
         return normal.sample(a, scale), normal.sample(loc=a, scale=scale)
 
+    def kw_order(a):
+        # one distribution under both calling conventions, identical shapes; the keyword names of
+        # uniform sort differently (high < low) from its positional order (low, high)
+        u1 = uniform.sample(a, a + 2.0)
+        u2 = uniform.sample(low=a + 0.5, high=a + 3.0)
+        return u1, u2
+
     fam = L.compile_prog(F.scan_vmap)
     fam2 = L.compile_prog(F.cond_pred)
 
@@ -107,6 +114,7 @@ def _programs():
     f32 = np.float32
     return {
         "custom_jvp_site": (custom_jvp_site, (f32(0.3),), {}),
+        "kw_order": (kw_order, (f32(0.3),), {}),
         "flat": (flat, (f32(0.3),), {}),
         "shaped": (shaped, (f32(0.3),), {}),
         "nested_scan": (nested_scan, (f32(0.3),), {}),
@@ -155,6 +163,21 @@ def _interference(f, args, kw):
         normal.sample(0.0, 1.0)
         flip.sample(0.5)
 
+    def op_uniform_keyword():
+        from genjax import uniform
+
+        uniform.sample(low=jnp.float32(0.0), high=jnp.float32(1.0))
+
+    def op_uniform_positional():
+        from genjax import uniform
+
+        uniform.sample(jnp.float32(0.0), jnp.float32(1.0))
+
+    def op_uniform_vector():
+        from genjax import uniform
+
+        uniform.sample(jnp.zeros(2), jnp.ones(2))
+
     def op_unseeded_simulate():
         other.simulate(0.0)
 
@@ -188,6 +211,9 @@ def _interference(f, args, kw):
     return [
         ("unseeded-sample", op_unseeded_sample),
         ("unseeded-simulate", op_unseeded_simulate),
+        ("unseeded-uniform-keyword-call", op_uniform_keyword),
+        ("unseeded-uniform-positional-call", op_uniform_positional),
+        ("unseeded-uniform-vector-call", op_uniform_vector),
         ("seeded-other-fn-same-avals", op_seeded_other_same_avals),
         ("seeded-same-fn-other-key", op_seeded_same_other_key),
         ("raise-inside-gen-body", op_raise_in_gen),
@@ -376,7 +402,7 @@ def _histories(res, tier, seed, pname, f, args, kw, jargs, sf, key, r0, call_eag
     # ---- interference histories
     ops = _interference(f, args, kw)
     depth = 2 if tier == "quick" else 3
-    if tier == "quick" and pname not in ("flat", "cond", "gf_call", "adev", "custom_jvp_site", "kwargs"):
+    if tier == "quick" and pname not in ("flat", "cond", "gf_call", "adev", "custom_jvp_site", "kwargs", "kw_order"):
         depth = 1  # quick: length-2 histories for six shapes, length-1 for the others; all at 3 in thorough
     first = int(part)
     for L_ in range(1, depth + 1):
@@ -385,7 +411,7 @@ def _histories(res, tier, seed, pname, f, args, kw, jargs, sf, key, r0, call_eag
                 continue
             handler_stack.clear()
             labels = []
-            for oi in hist:
+            for pos, oi in enumerate(hist):
                 label, op = ops[oi]
                 labels.append(label)
                 try:
@@ -395,6 +421,10 @@ def _histories(res, tier, seed, pname, f, args, kw, jargs, sf, key, r0, call_eag
                     # the interference itself failing is not the subject (e.g. a stale handler
                     # making an *unseeded* call misbehave); the seeded call below is
                     labels[-1] = label + f"[raised {type(ex).__name__}]"
+                if pos < len(hist) - 1:
+                    # observe only at the END of a history: every shorter history is enumerated on
+                    # its own, and the observation itself re-stages f, i.e. disturbs the hidden state
+                    continue
                 try:
                     r = call_eager()
                     dd = _same_bits(r0, r)
@@ -457,8 +487,8 @@ def _cmp_transform(res, pname, cname, a, b, i):
 
 def items(tier):
     its = []
-    n_ops = 9
-    for p in ("custom_jvp_site", "flat", "shaped", "nested_scan", "cond", "vmapped", "kwargs", "gf_simulate", "gf_call", "adev"):
+    n_ops = 12
+    for p in ("custom_jvp_site", "kw_order", "flat", "shaped", "nested_scan", "cond", "vmapped", "kwargs", "gf_simulate", "gf_call", "adev"):
         its.append((p, "transforms"))
         for f in range(n_ops):
             its.append((p, str(f)))
@@ -473,7 +503,7 @@ def main(tier, seed):
         its = [it for it in its if only in str(it)]
     res, errors = H.fan_out("checks.c06", "work", its, tier, seed)
     rule = (
-        "10 program shapes x (all interference histories of length <=2 quick / <=3 thorough over a 9-call alphabet, the seeded call re-run and "
+        "11 program shapes x (all interference histories of length <=2 quick / <=3 thorough over a 12-call alphabet, the seeded call re-run and "
         "compared bit for bit after every step) + (eager / jit / vmap-over-keys / jit(vmap) on 3 keys) + (32/64 distinct keys); states = seeded "
         "results compared, transitions = real calls"
     )
